@@ -33,6 +33,20 @@ RULES = {
     "merge-conditions-over-common-child": [A("Or(x == 1, x == 2)"), {"s": 0, "op": "branch"}, A("z == y", 1),
                                            {"s": 0, "op": "merge", "others": [1, 1], "conds": ["z == y", "true", "x + ZeroExt(1, y) == 9"], "anc": None},
                                            E("x", 20, 2), {"s": 2, "op": "satisfiable", "extra": []}],
+    # nothing is asked between the adds; simplify() disconnects the still unchecked child {x, y} into {y} and {x}, and the part
+    # on x is unsatisfiable in a way only a solver sees (squares mod 16 are 0, 1, 4, 9)
+    "unchecked-child-falls-apart": [A("y == 6"), A("UGT(x, ZeroExt(1, y))"), A("x * x == 3"), A("ULT(z, 2)"), {"s": 0, "op": "simplify"},
+                                    {"s": 0, "op": "satisfiable", "extra": []}, E("z", 20)],
+    "unchecked-child-falls-apart-implicit": [A("ULT(z, 2)"), A("y == 6"), A("UGT(x, ZeroExt(1, y))"), A("x * x + x == 1"),
+                                             {"s": 0, "op": "max", "e": "z", "signed": False, "extra": []}, {"s": 0, "op": "branch"},
+                                             {"s": 1, "op": "simplify"}, {"s": 1, "op": "satisfiable", "extra": []},
+                                             {"s": 0, "op": "satisfiable", "extra": []}],
+    # solution(e, v) with a symbolic v that lives in another child than e
+    "solution-symbolic-value": [A("ULT(x, 3)"), A("y == 6"), {"s": 0, "op": "solution", "e": "x", "v": "ZeroExt(1, y)", "extra": []},
+                                A("ULT(z, 2)"), {"s": 0, "op": "solution", "e": "y", "v": "z", "extra": []},
+                                {"s": 0, "op": "solution", "e": "z", "v": "y ^ z", "extra": []}, {"s": 0, "op": "branch"},
+                                {"s": 1, "op": "solution", "e": "x + ZeroExt(1, y)", "v": "If(b, x, ZeroExt(1, y))", "extra": ["b"]},
+                                {"s": 1, "op": "solution", "e": "x & 3", "v": "ZeroExt(1, z)", "extra": []}],
 }
 
 
@@ -44,8 +58,13 @@ def jobs_for(ctx, mult=1):
     n = ctx.pick(170, 700) * mult
     lens = ctx.pick([10, 20, 30], [30, 60, 120])
     for i in range(n):
+        # symv: a third of the solution() calls ask about a symbolic value (mostly over other variables, i.e. another child)
         jobs.append({"cls": "SolverComposite", "cfg": {"track": i % 5 == 0, "reuse": i % 3 == 0}, "len": lens[i % len(lens)],
-                     "struct": i % 2 == 0})
+                     "struct": i % 2 == 0, "gen": {"symv": 0.35}})
+    # adds without a question in between, then a simplifying call that makes a still unchecked child fall apart; random tail
+    for i in range(ctx.pick(60, 300) * mult):
+        jobs.append({"cls": "SolverComposite", "cfg": {"track": i % 5 == 0, "reuse": i % 3 == 0}, "len": ctx.pick(4, 12),
+                     "gen": {"shape": "unchecked-simplify", "symv": 0.35, "calpha": L.CONSTRAINTS + [c for v in L.OPAQUE.values() for c in v[:2]]}})
     return jobs
 
 
@@ -66,8 +85,11 @@ def run(ctx):
         "the composite bookkeeping (_solvers, _claim, _reabsorb_solver, _merged_solvers) is not modelled: covered by the oracle only",
     ]
     ctx.cov["rule"] = ("SolverComposite: rule-directed histories (connecting children, transitive closure, unsat child + unrelated query, copy-on-write "
-                       "after branch, literal false, expansion then simplify, merge conditions over a common child) x3 configurations; random histories "
-                       "(half with split/combine/merge, relative solver addressing) of length <= 30 quick / 120 thorough; SolverCompositeChild: random "
+                       "after branch, literal false, expansion then simplify, merge conditions over a common child, an unchecked child falling apart on "
+                       "simplify, solution() with a symbolic value of another child) x3 configurations; random histories "
+                       "(half with split/combine/merge, relative solver addressing; a third of the solution() calls with a symbolic value) of "
+                       "length <= 30 quick / 120 thorough; directed openings (pin, tie, solver-only constraints on the tied variable, no question "
+                       "asked; then simplify / min / max / eval(n>1), possibly on a branch) with a random tail; SolverCompositeChild: random "
                        "histories with full trace correspondence; _split_constraints: random constraint lists, model vs real; non-trivial = >= 3 calls")
     tie_ok = True
     try:
